@@ -14,7 +14,7 @@ ASSUMPTIONS = ['letters whose case mapping changes the length of the text (sharp
 ASCII = 'abcdefghijklmnopqrstuvwxyzABCDEFGHIJKLMNOPQRSTUVWXYZ0123456789 !#$%&()*+,-./:;<=>?@[\\]^_`{|}~\'"'
 CTRL = ''.join(chr(i) for i in range(1, 32))
 ACC = 'éàüñçöåøÉÀÜÑÇÖÅØ'
-CJK = 'ㅍ日本語中文かな'
+CJK = 'ㅍ日本語中文かな\U00020bb7\U0002a6a5'        # the last two are CJK Extension B ideographs (outside the BMP)
 ALPHA = ASCII + '   ' + CTRL + ACC + CJK
 
 text_s = st.one_of(st.text(st.sampled_from(ALPHA), max_size=60), st.text(st.sampled_from(ASCII), max_size=60),
